@@ -1793,6 +1793,23 @@ def c18_families(tier, seed, ids=None):
             body = [assign("k", call("wpick", I(1))), assign("ra", call("k"))] + after + [assign("rb", call("k"))] + after + [lst([N("ra"), N("rb"), call("k")])]
             yk.append(mk(ids2, [gen, pick, assign("wmain", fn([], block(body))), call("wmain"), call("wmain"), block(body)], {"yielded-returned": [width, later]}))
     out.append(("closures that left their generator by yield and were handed on by the consumer, across reused iterator contexts", yk, ("value", "residue")))
+    # a closure made while its definer runs in an iterator context shares the definer's variables like one made in a plain call: what the
+    # definer writes afterwards is what the closure reads (no stack growth in between), for frames of 1, 3 and 130 variables
+    lv = []
+    ids3 = Ids(9700000)
+    for width in (1, 3, 130):
+        pads = [assign("pv" + "".join(chr(97 + int(c)) for c in str(i)), I(i)) for i in range(width - 1)]
+        body = lambda emit: block(pads + [assign("n", I(1)), assign("get", fn([], N("n"))), assign("n", I(2)), emit(call("get")), assign("n", bin_("+", N("n"), I(5))), emit(call("get"))])
+        plain = assign("plainf", fn([], block(pads + [assign("n", I(1)), assign("get", fn([], N("n"))), assign("n", I(2)), assign("ra", call("get")), assign("n", bin_("+", N("n"), I(5))), lst([N("ra"), call("get")])])))
+        geng = assign("geng", fn([], body(y)))
+        runsum = assign("runsum", fn(["m"], block(pads + [assign("s", I(0)), assign("cur", fn([], N("s"))), fr(["x"], [call("fromto", I(1), N("m"))], block([assign("s", bin_("+", N("s"), N("x"))), y(call("cur"))]))])))
+        scaled = assign("scaled", fn(["k"], block(pads + [assign("f", fn(["x"], bin_("*", N("x"), N("k")))), assign("k", bin_("*", N("k"), I(2))), y(call("f", I(10))), assign("k", bin_("+", N("k"), I(10))), y(call("f", I(10)))])))
+        col = lambda g: block([assign("acc", lst([])), fr(["v"], [g], assign("acc", bin_("+", N("acc"), lst([N("v")])))), N("acc")])
+        items = [plain, geng, runsum, scaled, call("plainf"), col(call("geng")), col(call("runsum", I(5))), col(call("scaled", I(1))),
+                 assign("infn", fn([], block([assign("acc", lst([])), fr(["v", "w"], [call("geng"), call("scaled", I(2))], assign("acc", bin_("+", N("acc"), lst([N("v"), N("w")])))), N("acc")]))), call("infn"), call("infn"),
+                 assign("nest", fn([], fr(["v"], [call("runsum", I(4))], y(bin_("+", N("v"), I(100)))))), col(call("nest"))]
+        lv.append(mk(ids3, items, {"live-in-iterator": width}))
+    out.append(("closures made in an iterator context read what their definer wrote afterwards", lv, ("value", "residue")))
     return out
 
 
